@@ -110,6 +110,7 @@ def build(rng, e, with_jobs=False, special=None):
             cov = g.get("rho", 0.0) * float(s * g["ka"]) * float(s * g["kb"])
             cfgf["sigma"] = [[va, cov], [cov, vb]]
     cfgf["via"] = rng.choice([None, None, "translate", "resize"])
+    cfgf["ramp_int"] = int(rng.random() < 0.5)
     calls = []
     n = len(dgms)
     for i in range(n):
